@@ -4,6 +4,11 @@
 //!        engine replay <file>
 
 mod common;
+mod c09;
+mod c11;
+mod c12;
+mod c13;
+mod c16;
 mod corpus;
 mod e1;
 mod oracles;
@@ -51,6 +56,11 @@ fn main() {
         "C05" => e1::run_c05(tier),
         "C06" => e1::run_c06(tier),
         "C14" => e1::run_c14(tier),
+        "C09" => c09::run(tier),
+        "C11" => c11::run(tier),
+        "C12" => c12::run(tier),
+        "C13" => c13::run(tier),
+        "C16" => c16::run(tier),
         _ => {
             eprintln!("engine: unknown property {id}");
             std::process::exit(2)
@@ -110,6 +120,11 @@ fn replay(path: &str) -> i32 {
             }
             out
         }
+        "C11" => c11::check(case["input"].as_str().unwrap_or("")).0,
+        "C12" => c12::replay(case),
+        "C09" => c09::replay(case),
+        "C13" => c13::replay(case),
+        "C16" => c16::replay(case),
         _ => {
             eprintln!("engine: replay not supported for {id}");
             return 2;
